@@ -693,12 +693,22 @@ def cartposlos2geocentric(x, y, z, dx, dy, dz, ppc=None,
         same = np.equal(lon, lon0)
         circ = np.logical_and(cir2, same)
         left = np.logical_and(cir1, ~same)
-        right = np.logical_and(~cir1, ~same)
+        right = np.logical_and(np.logical_and(cir2, ~cir1), ~same)
 
-        # This should set all cases
+        # The north-south cases are pinned down by the optional input
         aa[circ] = aa0[circ]
         aa[left] = 180.
         aa[right] = 0.
+
+        # Any other direction: the azimuth of the line of sight itself
+        # (projection on the local north and east directions)
+        gen = np.logical_and(~noz, ~cir2)
+        pol = abs(lat) > 90 - 1e-08
+        north = coslat * dz - sinlat * (coslon * dx + sinlon * dy)
+        east = coslon * dy - sinlon * dx
+        aa[gen] = np.rad2deg(np.arctan2(east[gen], north[gen]))
+        gen = np.logical_and(gen, pol)
+        aa[gen] = np.rad2deg(np.arctan2(dy[gen], dx[gen]))
     else:
 
         # Determine the type of calculations to be carried out
